@@ -11,11 +11,13 @@ import vlib, apirec
 PID = "C14"
 NAN, INF = float("nan"), float("inf")
 ELEMS = [0, 255, 128, 256, -1, 1000, 0.0, 0.5, 1.0, 1.5, 127.6, 255.0, 300.0, NAN, INF, -INF, -0.5, 1e308, "128", "50%", "abc", "",
-         " ", "1e3", "-5", "999%", "inf%", "1e999%", "-inf%", "nan%", "9" * 400 + "%", "100.3%", "-0.3%", None, True, False]
+         " ", "1e3", "-5", "999%", "inf%", "1e999%", "-inf%", "nan%", "9" * 400 + "%", "100.3%", "-0.3%", None, True, False,
+         # numbers and number-like strings that Python's own conversions treat specially
+         10 ** 30, -0.0, "1_0", "0x10", " 12 ", "\n", "\u0661\u0662", "\ud800", "1e-400", "+.5", "5."]
 TOKENS = ["rgb(", "rgba(", "hsl(", "hsla(", ")", ",", "/", "%", "-", "+", ".", "e", "1", "255", "0.5", "1e309", "deg", "var(--x)",
           "inherit", "transparent", "currentcolor", "٣", " ", "#", "(", "fff", "red", "nan", "inf", "²", "\x00", "inf%", "1e999%", "9" * 330, "100.3%", "-0.3%", "100.2%", "255.4", "360.0001", "1.001",
           # every kind of white space (a value may be broken over lines), and text that means something to a formatting routine
-          "\n", "\r\n", "\t", "\f", "\v", "{", "}", "{}", "{0}", "{1}", "{color}", "{0.hex}", "${fg}", "%s", "%(x)s", "%d", "%", "\\", "\\n"]
+          "\n", "\r\n", "\t", "\f", "\v", "{", "}", "{}", "{0}", "{1}", "{color}", "{0.hex}", "${fg}", "%s", "%(x)s", "%d", "%", "\\", "\\n", "\ud800", "\udfff", "\U0001f3a8", "\u200b", "\ufeff"]
 VALID_CSS = ["#ff0000", "#abc", "rgb(1, 2, 3)", "rgba(1, 2, 3, 0.5)", "hsl(120, 50%, 50%)", "hsla(120, 50%, 50%, 0.3)", "red",
              "rgb(10%, 20%, 30%)", "255, 0, 0", "(1,2,3)"]
 
